@@ -47,22 +47,22 @@ FnTable  == [k \in {KeyOf(f) : f \in DOMAIN Functions} |-> Functions[CHOOSE f \i
 GeoTable == [k \in {KeyOf(f) : f \in DOMAIN GeoFunctions} |-> GeoFunctions[CHOOSE f \in DOMAIN GeoFunctions : KeyOf(f) = k]]
 GeoKey == KeyOf("geo")
 
-\* outcome of the function table for a call  id(args) :  "ok" | <<"unknown", fullname>> | <<"argc", fullname, min, max, n>>
+\* outcome of the function table for a call  id(args) :  <<"ok">> | <<"unknown", fullname>> | <<"argc", fullname, min, max, n>>
 FullName(id) == IF Len(id[2]) = 0 THEN id[3] ELSE
                 LET F[i \in 1..Len(id[2])] == IF i = 1 THEN id[2][1] ELSE F[i - 1] \o Dot \o id[2][i]
                 IN F[Len(id[2])] \o Dot \o id[3]
 CallCheck(id, n) ==
   IF Len(id[2]) = 0 THEN
        IF id[3] \in DOMAIN FnTable
-       THEN (IF n >= FnTable[id[3]][1] /\ n <= FnTable[id[3]][2] THEN "ok"
+       THEN (IF n >= FnTable[id[3]][1] /\ n <= FnTable[id[3]][2] THEN <<"ok">>
              ELSE <<"argc", id[3], FnTable[id[3]][1], FnTable[id[3]][2], n>>)
        ELSE <<"unknown", id[3]>>
   ELSE IF Len(id[2]) = 1 /\ id[2][1] = GeoKey THEN
        IF id[3] \in DOMAIN GeoTable
-       THEN (IF n >= GeoTable[id[3]][1] /\ n <= GeoTable[id[3]][2] THEN "ok"
+       THEN (IF n >= GeoTable[id[3]][1] /\ n <= GeoTable[id[3]][2] THEN <<"ok">>
              ELSE <<"argc", FullName(id), GeoTable[id[3]][1], GeoTable[id[3]][2], n>>)
        ELSE <<"unknown", FullName(id)>>
-  ELSE "ok"
+  ELSE <<"ok">>
 
 PrecOf(t) == IF IsBinary(t) THEN BinPrec[t[2]] ELSE IF t[1] = "Un" THEN PrePrec ELSE AtomPrec
 
@@ -157,7 +157,7 @@ ReduceNamed(st) == IF Len(st.ops) > 0 /\ Top(st.ops)[1] = "named"
                    ELSE st
 CloseCall(st, id, n) ==
    LET chk == CallCheck(id, n) IN
-   IF chk = "ok"
+   IF chk[1] = "ok"
    THEN Adv([st EXCEPT !.ops = Pop(@), !.vals = PopN(@, n) \o <<Call(id, LastN(st.vals, n))>>, !.mode = "operator"], 1)
    ELSE FErr(st, chk)
 
